@@ -169,6 +169,7 @@ MBurst(r) ==
     /\ r.ev = "burst"
     /\ r.len = r.n /\ r.intact = r.n /\ r.early = 0
     /\ r.after = 0 /\ r.dtors = r.n
+    /\ ~r.stuck                                   \* no thread hung or is still inside the pool after 8 s
     /\ UNCHANGED mvars
 
 MStep(r) == MInv(r) \/ MLin(r) \/ MDtor(r) \/ MResp(r) \/ MClone(r) \/ MRead(r) \/ MQuiet(r) \/ MBurst(r)
